@@ -17,11 +17,13 @@ pub struct Gen {
     /// allow nodes that may legitimately fail at render time (missing variables, bad indexes)
     pub allow_errors: bool,
     pub in_loop: usize,
+    /// partial names may come from the `pname` variable (only safe where recursion is impossible)
+    pub dynamic_names: bool,
 }
 
 impl Gen {
     pub fn new(seed: u64) -> Self {
-        Gen { rng: Rng::new(seed), partials: vec![], allow_partials: false, allow_errors: true, in_loop: 0 }
+        Gen { rng: Rng::new(seed), partials: vec![], allow_partials: false, allow_errors: true, in_loop: 0, dynamic_names: false }
     }
 
     pub fn name(&mut self) -> String {
@@ -186,7 +188,7 @@ impl Gen {
             },
             17 | 18 if self.allow_partials && !self.partials.is_empty() => {
                 let p = self.rng.pick(&self.partials.clone()).clone();
-                let name = if self.rng.chance(1, 4) { var("pname") } else { lit_s(&p) };
+                let name = if self.dynamic_names && self.rng.chance(1, 4) { var("pname") } else { lit_s(&p) };
                 let nargs = self.rng.below(3);
                 let args: Vec<(String, Expr)> = (0..nargs).map(|_| (self.name(), self.safe_expr())).collect();
                 if self.rng.chance(1, 2) {
